@@ -313,6 +313,68 @@ def rule_r1(repo):
     rr.require_floor(50)
     return rr
 
+def rule_pipeline_queries(repo, rule='C16.R8'):
+    """Queries over trees that the repository's own decoder walk and wire() produce (rules/pipeline.py), not over hand-built ones:
+    for every template of the family, the bare ID of each ordinary element, the child path to each top-level member and the attribute
+    path to each linked value are evaluated by DataQuerent.query and compared with the reference evaluation over the nested JSON
+    rendering of the same tree."""
+    from sa.rules import pipeline as P
+    rr = RuleResult(rule, 'queries on trees wired from the decoder walk (end-to-end fold): bare IDs, child paths and attribute paths equal the evaluation over the nested JSON rendering')
+    n = 0
+    for name in sorted(P.templates()):
+        o = P.run_template(repo, name)
+        if not o.decode.ok or not getattr(o, 'wire', None) or not o.wire.ok:
+            continue        # reported by C09.R13
+        tree = (o.nodes, o.descs, o.vals)
+        js = render_json(repo, *tree)
+        msg = make_message([tree], False)
+        labels = []
+        for e in js:
+            if isinstance(e, dict) and isinstance(e.get('id'), str) and e['id'] not in labels:
+                labels.append(e['id'])
+        paths = ['/' + l for l in labels]
+        # attribute paths for top-level owners
+        for e in js:
+            if isinstance(e, dict) and 'value' in e:
+                for a in e.get('attributes') or []:
+                    p = '/%s.%s' % (e['id'], a['id'])
+                    if p not in paths:
+                        paths.append(p)
+        # one level below replications and sequences
+        for e in js:
+            if isinstance(e, dict) and isinstance(e.get('members'), list):
+                inner = []
+                for m in e['members']:
+                    for x in (m if isinstance(m, list) else [m]):
+                        if isinstance(x, dict) and isinstance(x.get('id'), str) and x['id'] not in inner:
+                            inner.append(x['id'])
+                for l in inner:
+                    p = '/%s/%s' % (e['id'], l)
+                    if p not in paths:
+                        paths.append(p)
+        key = 'pipeline-query:%s' % name.split(' (')[0].replace(' ', '-').replace(',', '')
+        for path in paths:
+            sub, comps = parse_ref(path)
+            try:
+                want = ('ok', ref_query(js, comps))
+            except RefError:
+                want = ('error', None)
+            fi, r = run_query(repo, msg, path)
+            n += 1
+            if want[0] == 'error':
+                if r.ok or not (repo.has_cls(r.exc.cls) and repo.is_subclass(r.exc.cls, 'PyBufrKitError')):
+                    rr.fail(key, fi.where, 'template "%s": %r designates no value in the hierarchical view but gives %s' % (name, path, result_values(r) if r.ok else r.exc.cls),
+                            witness={'template': name, 'path': path})
+                continue
+            got = result_values(r) if r.ok else None
+            if not r.ok or got != {0: want[1]}:
+                rr.fail(key, fi.where, 'template "%s": query %r %s; evaluating the path over the nested JSON rendering of the wired tree gives %r' % (
+                    name, path, 'raises ' + r.exc.cls if not r.ok else 'returns %r' % (got,), {0: want[1]}), witness={'template': name, 'path': path})
+        rr.instance('template "%s": %d paths' % (name, len(paths)))
+    rr.extra = {'paths': n}
+    rr.require_floor(15)
+    return rr
+
 
 def _full_worker(job):
     """One chunk of paths (worker process): returns [(kind, path, detail)] for disagreements."""
@@ -497,6 +559,7 @@ def run(repo, check):
     known_c09 = set(k['ident'].split(':', 1)[1] for k in load_known().get('known', []) if k.get('ident', '').startswith('C09.R1:'))
     _sh(check, repo, _c09.rule_r1, 'C16.R6', 'the tree that is queried holds every flat value once: coder / wirer lockstep (shared with C09.R1)', args=('C16.R6',),
         keep=lambda f: f.key not in known_c09)
+    check.run_rule(rule_pipeline_queries, repo)
     from sa.rules import c13 as _c13
     from sa.rules.common import share as _share
     _share(check, repo, _c13.rule_r3, 'C16.R7', 'a query does not depend on the queries made before it: parser and querent keep nothing between calls (shared with C13.R3)',
